@@ -58,6 +58,7 @@ type replayResult struct {
 	TapeMisses  []string          `json:"tape_misses,omitempty"`
 	WallClockOK bool              `json:"wall_clock_ok"`
 	Attempts    int               `json:"attempts,omitempty"`
+	Hung        bool              `json:"hung,omitempty"`
 }
 
 type state struct {
@@ -299,7 +300,21 @@ func RunReplay(t *testing.T, harnesses map[string]func()) {
 	}
 }
 
-func runOne(c replayCase, h func()) (res *replayResult) {
+// runOne runs one case under a watchdog: a harness that does not return (goroutines of the code under
+// test blocked for ever) is reported as a panic-class failure "DEADLOCK" instead of hanging the replay.
+func runOne(c replayCase, h func()) *replayResult {
+	done := make(chan *replayResult, 1)
+	go func() { done <- runOneInline(c, h) }()
+	select {
+	case r := <-done:
+		return r
+	case <-time.After(20 * time.Second):
+		return &replayResult{ID: c.ID, Harness: c.Harness, Observed: map[string]string{}, Facts: map[string]bool{},
+			Panic: "DEADLOCK: the harness did not return within 20s (goroutines of the code under test are blocked)", Hung: true}
+	}
+}
+
+func runOneInline(c replayCase, h func()) (res *replayResult) {
 	res = &replayResult{ID: c.ID, Harness: c.Harness, Observed: map[string]string{}, Facts: map[string]bool{}}
 	st := &state{tape: map[string]tapeEntry{}, labelN: map[string]int{}, res: res, tier: c.Tier}
 	for _, e := range c.Tape {
